@@ -41,7 +41,7 @@ def main():
         for pid in ids:
             for patch in sorted(glob.glob("%s/%s/patch_*.diff" % (src, pid))):
                 k = re.search(r"patch_(\d+)\.diff", patch).group(1)
-                name = "%s-%s" % (pid, k)
+                name = "%s-%d" % (pid, int(k) + int(os.environ.get("SEED_OFFSET", "0")))  # second round: SEED_OFFSET=3
                 res = {"seed": name}
                 results.append(res)
                 metaf = "%s/%s/meta_%s.json" % (src, pid, k)
